@@ -29,6 +29,9 @@ type Exp struct {
 	Writes   []string
 	Triggers []hs.TriggerCall
 	Outcome  hs.Outcome
+	// Annotations: when not nil, the compiled function annotations are evaluated as well (the way the
+	// repository's own driver does) and must equal this sorted list ("module.fn#i: trigger at minute [41] cb=fn").
+	Annotations []string `json:",omitempty"`
 }
 
 // ProgCase is the replayable unit of all program-level checks.
@@ -83,7 +86,7 @@ func ExpOf(tr *hs.Trace) *Exp {
 
 func (c ProgCase) Request(backends ...string) *sb.Request {
 	return &sb.Request{Op: "run", Modules: c.Modules, Entry: c.Entry, Backends: backends, Limits: c.Limits,
-		Singletons: c.Singletons, AnyVals: c.AnyVals, PollCap: 3_000_000}
+		Singletons: c.Singletons, AnyVals: c.AnyVals, PollCap: 3_000_000, Annotations: c.Expect != nil && c.Expect.Annotations != nil}
 }
 
 // OutcomeClass maps a backend outcome onto the model's classes.
@@ -137,6 +140,9 @@ func CompareRun(exp *Exp, run *sb.RunResult) (string, string) {
 	}
 	if cls == "throw" && msg != exp.Outcome.Message {
 		return "throw-message", fmt.Sprintf("uncaught exception message differs: expected %q, got %q", exp.Outcome.Message, msg)
+	}
+	if exp.Annotations != nil && run.Backend == "vm" && strings.Join(exp.Annotations, "\n") != strings.Join(run.Annotations, "\n") {
+		return "annotations", fmt.Sprintf("compiled annotations differ:\n  expected: %q\n  got:      %q", exp.Annotations, run.Annotations)
 	}
 	if len(exp.Triggers) != len(run.Triggers) {
 		return "triggers", fmt.Sprintf("trigger registrations differ: expected %v, got %v", exp.Triggers, run.Triggers)
